@@ -4,6 +4,7 @@ import (
 	"bufio"
 	"bytes"
 	"crypto/cipher"
+	"fmt"
 	"os"
 	"path/filepath"
 	"regexp"
@@ -92,6 +93,8 @@ func vectors(g *GenCtx) {
 		}
 		sanse := strings.Contains(name, "sanse")
 		var pt, ad, wrapped, kravatin string
+		var script []string
+		add := func(format string, a ...any) { script = append(script, fmt.Sprintf(format, a...)) }
 		for _, line := range strings.Split(string(raw), "\n") {
 			m := reLine.FindStringSubmatch(strings.TrimSpace(line))
 			if m == nil {
@@ -105,23 +108,23 @@ func vectors(g *GenCtx) {
 			switch m[1] {
 			case "key":
 				if sanse {
-					g.Op("new sanse %s", h)
+					add("new sanse %s", h)
 				} else {
-					g.Op("new kv %s", h)
+					add("new kv %s", h)
 				}
 			case "in":
-				g.Op("kra %d 0 %s", 8*nbytes, h)
+				add("kra %d 0 %s", 8*nbytes, h)
 			case "last":
-				g.Op("kra %d 2 %s", 8*nbytes, h)
+				add("kra %d 2 %s", 8*nbytes, h)
 			case "inbits":
-				g.Op("kra %s 2 %s", m[2], h)
+				add("kra %s 2 %s", m[2], h)
 			case "out":
 				n, _ := strconv.Atoi(m[2])
-				g.Op("vatte %d 0 =%s", 8*n, h)
+				add("vatte %d 0 =%s", 8*n, h)
 			case "kravatin":
 				kravatin = h
 			case "kravatout":
-				g.Op("kravatte 2 16 %s =%s", kravatin, h)
+				add("kravatte 2 16 %s =%s", kravatin, h)
 			case "plaintext":
 				pt = h
 			case "ad":
@@ -129,8 +132,8 @@ func vectors(g *GenCtx) {
 			case "wrap":
 				wrapped = h
 			case "tag":
-				g.Op("seal a %s %s =%s%s", ad, pt, strings.TrimPrefix(wrapped, "-"), h)
-				g.Op("openl b %s - =%s", ad, pt)
+				add("seal a %s %s =%s%s", ad, pt, strings.TrimPrefix(wrapped, "-"), h)
+				add("openl b %s - =%s", ad, pt)
 			default:
 				if w, ok := dumps[m[1]]; ok && !sanse {
 					if w == "o" {
@@ -139,13 +142,14 @@ func vectors(g *GenCtx) {
 						for i := 3; i >= 0; i-- {
 							v = v<<8 | int(b[i])
 						}
-						g.Op("dump o =%d", v)
+						add("dump o =%d", v)
 					} else {
-						g.Op("dump %s =%s", w, h)
+						add("dump %s =%s", w, h)
 					}
 				}
 			}
 		}
+		g.Op("new ; %s", strings.Join(script, " ; "))
 	}
 }
 
@@ -666,10 +670,10 @@ func (s *state) exec(f []string) string {
 func run(in *bufio.Scanner, out *bufio.Writer) {
 	s := &state{objs: map[string]*obj{"a": nil, "b": nil}}
 	for in.Scan() {
-		f, expect := StripExpect(strings.Fields(in.Text()))
-		res := s.exec(f)
-		if expect != "" && res != "bad-op" && res != expect {
-			res += " !vector"
+		f := strings.Fields(in.Text())
+		res, script := Script(f, s.exec)
+		if !script {
+			res = ExecExpect(f, s.exec)
 		}
 		out.WriteString(res)
 		out.WriteByte('\n')
